@@ -95,6 +95,54 @@ CHECKS["C08"] = dict(
          "failed; reference returns keep object identity by type.",
     design_ref="DESIGN.md section 4, C08", note="Not decided: what the user's expressions compute.")
 
+CHECKS["C01"] = dict(
+    technique="CFG dominance and argument data-flow on the dispatch function, noreturn automaton with effect "
+              "exclusion over the no-match reporter's transitive callees, who-may-access, protocol automaton",
+    text="In every dispatch instantiation the candidate comes from one selection call over the active list of the "
+         "mock function's own expectations object and every use is dominated by the non-null edge; on the null edge "
+         "only the no-match reporter runs, and every path of it is exactly one fatal report then abort, reaching no "
+         "count, list, sequence, action or OK event; a run_actions path that ends in a fatal report has changed "
+         "nothing; saturated expectations are never candidates; matching is the conjunction over all parameters and "
+         "all WITH conditions; expired expectations are unlinked on every path.",
+    design_ref="DESIGN.md section 4, C01",
+    note="The 'iff' composes C02 (which candidate), C05 (sequence permission), C07 (forbidden); the lifting from "
+         "'per call' to 'every history' is the list invariant written in DESIGN.md.")
+CHECKS["C02"] = dict(
+    technique="decision table of the candidate-loop step by interpreting its extracted CFG over all atom valuations "
+              "(TABLE, acceptable-decision sets), who-may-call, per-MAKE_MOCK routing agreement, type witnesses",
+    text="One iteration of the selection loop takes the decision the property prescribes on every valuation of "
+         "(matches, cost, candidate present, lowest cost); new expectations go to the front of exactly the list "
+         "their tag selects; each generated mock function dispatches on the member whose active list its tag "
+         "returns and forwards its parameters in order (every MAKE_MOCK in the analysed units); signatures are "
+         "isolated by type; cost/order tables are those of C05.",
+    design_ref="DESIGN.md section 4, C02",
+    note="Global optimality of the selection is the loop invariant written in DESIGN.md over the checked step.")
+CHECKS["C03"] = dict(
+    technique="truth tables of the count predicates and interpretation of the limit-plumbing functions over finite "
+              "valuations (TABLE), compile-time and preprocessor witnesses, protocol automaton",
+    text="is_satisfied / is_saturated / is_forbidden equal count>=min / count==max / max==0 on every valuation of a "
+         "finite order abstraction; set_limits, increment_call (+1), default limits (1,1,0), rt_multiplicity and "
+         "TIMES plumbing store what the property says; AT_LEAST/AT_MOST/ALLOW_CALL expand to the documented bounds; "
+         "an accepted call is counted exactly once and on saturation retires, unlinks and is appended to the "
+         "saturated list; RT_TIMES throws std::logic_error exactly when high<low, before any effect.",
+    design_ref="DESIGN.md section 4, C03", note="count<=max is an invariant from C03.d, used as don't-care rows.")
+CHECKS["C06"] = dict(
+    technique="decision table of the is_completed step (TABLE), teardown automaton with tracked boolean locals, "
+              "protocol automaton for leave-on-saturation, dominance for leave-on-release",
+    text="is_completed returns false exactly at the first unsatisfied pending expectation and true otherwise; "
+         "~sequence_type takes the current front, lists it and unlinks it until the list is empty and sends exactly "
+         "one non-fatal report iff something was listed; both step consumers leave their sequences on saturation and "
+         "a released node unlinks on every path.",
+    design_ref="DESIGN.md section 4, C06", note="The query's lock is C12.")
+CHECKS["C07"] = dict(
+    technique="preprocessor token equality of the FORBID macro family, protocol automaton, constant evaluation of "
+              "the count predicates, compiler-decided witnesses for the compile-time bans",
+    text="Every FORBID_CALL spelling is REQUIRE_CALL + TIMES(0); the forbidden-call report is one fatal report with "
+         "the expectation's location, name and the actual arguments, sent on the is_forbidden edge before any state "
+         "change, so the expectation stays active and each later matching call takes the same path; at (0,0,0) it is "
+         "satisfied and saturated; actions and IN_SEQUENCE on it do not compile.",
+    design_ref="DESIGN.md section 4, C07", note="Which calls it is the candidate for is C01/C02.")
+
 NOT_APPLICABLE = {}
 
 
